@@ -1,5 +1,5 @@
 """C03 - search(n_iter=N) performs exactly N steps; step accounting is exact."""
-from .. import common as C, gen, scen
+from .. import common as C, gen, scen, translators
 from ..runner import Check
 from . import drvgen
 
@@ -91,7 +91,7 @@ def hazard_scenarios(r):
 
 
 def run():
-    chk = Check("C03")
+    chk = Check("C03", props_modules=["GFO.Props.C03", "GFO.Gen.DriverGenCheck"], gen_steps=(translators.gen_driver,))
     chk.build_and_audit()
     r = C.rng("C03")
     quick = C.tier() != "thorough"
